@@ -32,7 +32,12 @@ func (w *hbWriter) WriteShipMessageWithPayload(b []byte) {
 				ts = string(b)[j+13:]
 				ts = ts[:strings.Index(ts, `"`)]
 			}
-			rt.Mark(fmt.Sprintf("n %d %s %d", c, ts, rt.NowD()/time.Millisecond))
+			to := "-"
+			if j := strings.Index(string(b), `"heartbeatTimeout":"`); j > 0 {
+				to = string(b)[j+20:]
+				to = to[:strings.Index(to, `"`)]
+			}
+			rt.Mark(fmt.Sprintf("n %d %s %d %s", c, ts, rt.NowD()/time.Millisecond, to))
 		}
 	}
 }
@@ -105,6 +110,7 @@ func c16Scenario(timeout time.Duration, pre []string, threads [][]string) *engin
 		var finalRunning bool
 		var finalCounter uint64
 		var blockedSel int
+		storedAnnounced := time.Duration(-1)
 		res := rt.Execute(cfg, func() {
 			attach := true
 			pre := pre
@@ -134,8 +140,12 @@ func c16Scenario(timeout time.Duration, pre []string, threads [][]string) *engin
 			if d, ok := h.f.DataCopy(fnHB).(*model.DeviceDiagnosisHeartbeatDataType); ok && d != nil && d.HeartbeatCounter != nil {
 				finalCounter = *d.HeartbeatCounter
 				if d.HeartbeatTimeout != nil {
-					if to, err := d.HeartbeatTimeout.GetTimeDuration(); err != nil || to != timeout {
+					// (a configured timeout that is no whole multiple of 100 ms cannot be announced exactly:
+					// the textual duration has tenths of a second)
+					if to, err := d.HeartbeatTimeout.GetTimeDuration(); err != nil || (to != timeout && timeout%(100*time.Millisecond) == 0) {
 						viol = append(viol, fmt.Sprintf("announced heartbeat timeout differs from the configured one | %v", to))
+					} else if err == nil {
+						storedAnnounced = to
 					}
 				}
 			}
@@ -159,6 +169,8 @@ func c16Scenario(timeout time.Duration, pre []string, threads [][]string) *engin
 			ms  int64
 		}
 		quiet := -1
+		announced := storedAnnounced // the smallest timeout announced in the stored data or in any notification
+		var periods []time.Duration
 		for i, l := range res.Log {
 			f := strings.Fields(l)
 			switch f[0] {
@@ -182,13 +194,25 @@ func c16Scenario(timeout time.Duration, pre []string, threads [][]string) *engin
 					ts  string
 					ms  int64
 				}{i, c, f[2], ms})
+				if len(f) > 4 && f[4] != "-" {
+					dt := model.DurationType(f[4])
+					if to, err := dt.GetTimeDuration(); err == nil && (announced < 0 || to < announced) {
+						announced = to
+					}
+				}
 			case "ticker":
 				d, _ := time.ParseDuration(f[1])
-				if d > timeout {
-					viol = append(viol, fmt.Sprintf("heartbeat period exceeds the announced timeout | period=%v timeout=%v", d, timeout))
-				}
+				periods = append(periods, d)
 			case "quiet":
 				quiet = i
+			}
+		}
+		if announced < 0 {
+			announced = timeout
+		}
+		for _, d := range periods {
+			if d > announced || d > timeout {
+				viol = append(viol, fmt.Sprintf("heartbeat period exceeds the announced timeout | period=%v announced=%v configured=%v", d, announced, timeout))
 			}
 		}
 		for i := 1; i < len(notif); i++ {
@@ -269,7 +293,13 @@ func c16Scenario(timeout time.Duration, pre []string, threads [][]string) *engin
 
 func c16Scenarios(thorough bool) []*engine.SScenario {
 	var scs []*engine.SScenario
-	for _, to := range []time.Duration{100 * time.Millisecond, 2 * time.Second, 2500 * time.Millisecond, 4 * time.Second, 60 * time.Second} {
+	// configured timeouts: the bounds of the quantifier, both sides of the 2 s rule of the refresh period, and values
+	// that are no whole multiple of 100 ms (the announced timeout is then shorter than the configured one)
+	tos := []time.Duration{100 * time.Millisecond, 250 * time.Millisecond, 1550 * time.Millisecond, 2 * time.Second, 2500 * time.Millisecond, 4 * time.Second, 60 * time.Second}
+	if thorough {
+		tos = append(tos, 190*time.Millisecond, 1999*time.Millisecond, 2001*time.Millisecond, 2050*time.Millisecond, 3*time.Second, 30*time.Second+50*time.Millisecond)
+	}
+	for _, to := range tos {
 		scs = append(scs, c16Scenario(to, nil, [][]string{{"Add"}}))
 	}
 	t4 := 4 * time.Second
